@@ -15,7 +15,6 @@
 package sorted_set
 
 import (
-	"cmp"
 	"errors"
 	"math"
 	"math/rand"
@@ -271,9 +270,9 @@ func (set *SortedSet) Pop(count int, policy string) (*SortedSet, error) {
 
 	slices.SortFunc(members, func(a, b MemberParam) int {
 		if strings.EqualFold(policy, "min") {
-			return cmp.Compare(a.Score, b.Score)
+			return compareMembers(a, b)
 		}
-		return cmp.Compare(b.Score, a.Score)
+		return compareMembers(b, a)
 	})
 
 	for i := 0; i < count; i++ {
